@@ -25,7 +25,8 @@ abbrev Reply := Option Bytes
 
 /-- What a registered `MessageConsumer` does when invoked. -/
 inductive Consumer where
-  | plain (tag : Nat)                       -- records the reply
+  | plain (tag : Nat) (fails : Bool := false)  -- records the reply; `fails`: OnMessageResponse returns an error (joined into
+                                            -- handleLoginPluginResponse's return value, changes nothing else)
   | relay (bid : Int) (emptyData : Bool)    -- forgeRelayConsumer{backendMsgID = bid}: LoginPluginResponse{bid, reply} to the backend
   | chain (tag : Nat) (next : Consumer)     -- records the reply, then calls SendLoginPluginMessage(next)
   deriving DecidableEq, Repr, Inhabited
@@ -95,7 +96,7 @@ def step (v : Variant) (s : State) : Act → State × List Act
          [.respConsume id c (replyOf ok data), .respCheck])
   | .respConsume id c r =>
       match c with
-      | .plain _ => ({ s with consLog := s.consLog ++ [(id, c, r)] }, [])
+      | .plain _ _ => ({ s with consLog := s.consLog ++ [(id, c, r)] }, [])
       | .relay bid _ => ({ s with consLog := s.consLog ++ [(id, c, r)]
                                   backendOut := s.backendOut ++ [(id, bid, r)] }, [])
       | .chain _ next => ({ s with consLog := s.consLog ++ [(id, c, r)] }, [.sendInc next])
